@@ -104,9 +104,67 @@ def _work(i):
     return _work_one(i, o)
 
 
+_UBIQ = {"typ", "sub", "rank", "FRONT", "alloc0", "llen0", "lel0", "dhas0", "dval0", "dlen0", "dkey0", "didx0"}
+_SYM = {}
+
+
+def _symbols(f):
+    k = f.get_id()
+    if k in _SYM:
+        return _SYM[k]
+    out, seen, todo = set(), set(), [f]
+    while todo:
+        t = todo.pop()
+        i_ = t.get_id()
+        if i_ in seen:
+            continue
+        seen.add(i_)
+        if z3.is_quantifier(t):
+            todo.append(t.body())
+        elif z3.is_app(t):
+            d = t.decl()
+            if d.kind() == z3.Z3_OP_UNINTERPRETED:
+                out.add(d.name())
+            todo.extend(t.children())
+    _SYM[k] = out
+    return out
+
+
+def _sliced(o):
+    """the hypotheses connected to the goal through shared (non-ubiquitous) symbols; dropping hypotheses is sound.  Tried first:
+    a goal about attribute presence or types is then not buried under the string constraints of the path."""
+    want = set(_symbols(o.goal)) - _UBIQ
+    syms = [_symbols(f) - _UBIQ for f in o.pc]
+    keep = [False] * len(o.pc)
+    changed = True
+    while changed:
+        changed = False
+        for j, f in enumerate(o.pc):
+            if keep[j]:
+                continue
+            if not syms[j] or (syms[j] & want):
+                keep[j] = True
+                if not syms[j] <= want:
+                    want |= syms[j]
+                    changed = True
+    if all(keep):
+        return None
+    p = _Part(o, o.goal)
+    p.pc = [f for j, f in enumerate(o.pc) if keep[j]]
+    return p
+
+
 def _work_one(i, o):
     t0 = time.time()
     try:
+        if not getattr(o, "pure", False) and len(o.pc) > 20 and not getattr(o, "_is_slice", False):
+            sl = _sliced(o)
+            if sl is not None:
+                sl._is_slice = True
+                for kw in (dict(mbqi=False), dict(mbqi=False, rel0=True)):
+                    s0 = _mk_solver(sl, min(_CFG["z3_ms"], 5000), **kw)
+                    if s0.check() == z3.unsat:
+                        return i, "unsat", "z3-%s(sliced)" % z3.get_version_string(), time.time() - t0, None
         if getattr(o, "pure", False) and _CFG.get("cvc5", True):
             # pure (string) lemmas: cvc5 first, it is the stronger string solver
             s = _mk_solver(o, _CFG["z3_ms"])
